@@ -224,7 +224,8 @@ class C01Bloom(Scenario):
         sig = {"class": self.kind, "op": step["op"], "chan": step.get("chan")}
         for k in sorted(self.model):
             key = seams.key_of(k)
-            alt_ok = structs.api_check(o, key, alt=True, hasher=self.hasher() if self.kind == "ExpandingBloomFilter" else None)
+            alt_ok = structs.api_check(o, key, alt=True, hasher=self.hasher() if self.kind == "ExpandingBloomFilter" else None,
+                                       longer=(0, 0, 3)[k % 3])
             if o.check(key) is not True or not (key in o) or alt_ok is not True:
                 raise Violation("false_negative", f"{self.kind}: key {k} ({key!r}) was added and is reported absent after "
                                                   f"{step} (bits={self.m}, hashes={self.k}, hash={self.cfg['hash']})", sig)
